@@ -193,8 +193,6 @@ func (d *PathDecoder) decodeReferenceTargetsForBody(body hcl.Body, parentBlock *
 			}
 
 			bodyRef.Type = bodyToDataType(bSchema.Type, bSchema.Body)
-
-			refs = append(refs, bodyRef)
 		}
 
 		if bSchema.Address.DependentBodyAsData {
@@ -233,9 +231,17 @@ func (d *PathDecoder) decodeReferenceTargetsForBody(body hcl.Body, parentBlock *
 				}
 
 				if !bSchema.Address.BodyAsData {
+					sort.Sort(bodyRef.NestedTargets)
 					refs = append(refs, bodyRef)
 				}
 			}
+		}
+
+		if bSchema.Address.BodyAsData {
+			// appended only now: the dependent body (above) may have replaced
+			// the type and the nested targets, and a Target is copied by value
+			sort.Sort(bodyRef.NestedTargets)
+			refs = append(refs, bodyRef)
 		}
 
 		if bSchema.Address.SupportUnknownNestedRefs {
@@ -247,8 +253,6 @@ func (d *PathDecoder) decodeReferenceTargetsForBody(body hcl.Body, parentBlock *
 				Type:        cty.DynamicPseudoType,
 			})
 		}
-
-		sort.Sort(bodyRef.NestedTargets)
 	}
 
 	for _, tb := range bodySchema.TargetableAs {
